@@ -9,6 +9,7 @@ from pbt import engine
 from pbt.engine import Check, Violation, R, B, is_exc, DriverTimeout
 from pbt import polyref as pr
 from pbt.polyref import Unsupported
+from pbt.polycommon import HangJudge
 
 SYMS = ["x", "y", "z", "u", "v"]
 CLASS = {"I": "MIntPoly", "E": "MExprPoly"}
@@ -139,7 +140,7 @@ def expr_version(spec):
     return {"v": spec["v"], "t": [[e, [[abs(c) % 2, c, 1]]] for e, c in spec["t"]]}
 
 
-class C22(Check):
+class C22(HangJudge, Check):
     pid = "C22"
     exe = "driver_poly"
     builds = [("main", ("driver_poly",))]
@@ -162,6 +163,7 @@ class C22(Check):
                    "documented exceptions of from_basic decline a case; an exception of an arithmetic op or query is a violation"]
     tiers = {"quick": {"examples": 1400}, "thorough": {"examples": 40000}}
     timeout = 40.0
+    case_timeout = 240
 
     def enumerate(self, tier):
         for tag, text, want in PROBES:
@@ -301,10 +303,8 @@ class C22(Check):
             ask(["diff", p, ["symbol", s]], "poly", pr.diff(P, s), vp, "diff(p,%s)" % s)
         gens = ["list"] + [["symbol", s] for s in ps["v"]]
         ask(["mpoly_from_basic_gens", CLASS[cls], sp, gens], "poly", P, vp, "from_basic(as_symbolic(p), vars(p))")
-        try:
-            res = self.run(stm)
-        except DriverTimeout:
-            self.skip("timeout")
+        res = self.run_nominating(stm)
+        if res is None:
             return
         for idx, kind, want, wv, what in plan:
             r = res[idx]
@@ -380,10 +380,8 @@ class C22(Check):
                 stm.append(["eq", R(i + 1), R(1)])
                 stm.append(["eq", ["expand", R(i + 1)], R(1)])
                 plan.append((i, c, what, gs))
-        try:
-            res = self.run(stm)
-        except DriverTimeout:
-            self.skip("timeout")
+        res = self.run_nominating(stm)
+        if res is None:
             return
         if is_exc(res[1]):
             self.skip("build_declined")
